@@ -86,7 +86,9 @@ def main(c):
     if mode == "run":
         random.seed(c["seed"])
         alg = build(c)
-        for b in c["budgets"]:
+        for i, b in enumerate(c["budgets"]):
+            if c.get("gauss_pending") and i == len(c["budgets"]) - 1 and i > 0:
+                random.gauss(0.0, 1.0)        # the same user draw as in "save" mode, at the same place
             alg.run(b)
         return fingerprint(alg)
     if mode == "save":
